@@ -14,11 +14,12 @@ class Case:
     nontrivial: bool (by the property's rule)
     note    : free text for replay files
     """
-    __slots__ = ("cid", "kind", "fields", "expect", "stream", "nontrivial", "note", "group")
+    __slots__ = ("cid", "kind", "fields", "expect", "stream", "nontrivial", "note", "group", "tags")
     def __init__(self, kind, fields, stream, expect=None, nontrivial=True, note="", group=None):
         self.kind, self.fields, self.stream, self.expect = kind, fields, stream, expect
         self.nontrivial, self.note, self.group = nontrivial, note, group
         self.cid = None
+        self.tags = set()
     def line(self):
         return vlib.case_line(self.cid, self.kind, **self.fields)
     def key(self):
@@ -102,9 +103,12 @@ class Prop:
     def model_dropped(self, model):
         return (model is None or "need" in model or "unsupported" in model or model.get("tokens") == "FUEL"
                 or "fuel" in model or "driver_error" in model or model.get("need_from") == "0")
-    def extra_checks(self, tier, st):
-        """Property-specific checks beyond the case streams. Returns (violations, info)."""
+    def extra_checks(self, tier, st, rng=None, cases=None, go=None):
+        """Property-specific checks beyond the case streams (second phases, relational runs,
+        process-level checks).  Returns (violations [(case, descr)], info dict merged into the evidence)."""
         return [], {}
+    def in_class(self, klass, case):
+        return False
 
 def load_corpus(prop):
     path = os.path.join(vlib.ROOT, "corpus", "%s.txt" % prop.id)
@@ -204,7 +208,7 @@ def run_check(prop, tier, seed):
     for (c, d) in prop.judge_groups(groups, go):
         oracle_viol.append((c, d, go.get(c.cid), model.get(c.cid)))
 
-    extra_viol, extra_info = prop.extra_checks(tier, st)
+    extra_viol, extra_info = prop.extra_checks(tier, st, rng, cases, go) if st["harness"] else ([], {})
 
     if os.environ.get("VERIF_DUMP"):
         with open(os.environ["VERIF_DUMP"], "w") as f:
